@@ -15,7 +15,7 @@
 
 """Handling for action callbacks."""
 from types import FrameType
-from typing import List
+from typing import List, Optional
 
 from deep import logging
 
@@ -33,14 +33,25 @@ class CallbackContext(Location, ActionCallback):
     to close when the line/method completes.
     """
 
-    def __init__(self, event: str, filename: str, line: int, name: str, callbacks: List['ActionCallback']):
-        """Create new callback context."""
+    def __init__(self, event: str, filename: str, line: int, name: str, callbacks: List['ActionCallback'],
+                 opened_in: Optional[int] = None):
+        """
+        Create new callback context.
+
+        :param opened_in: the identity of the frame (the function invocation) whose event created this context
+        """
         super().__init__(Location.Position.END)
         self.__event = event
         self.__filename = filename
         self.__function_name = name
         self.__line = line
         self.__callbacks = callbacks
+        self.__opened_in = opened_in
+
+    @property
+    def opened_in(self) -> Optional[int]:
+        """The identity of the frame whose event created this context (None if it is not known)."""
+        return self.__opened_in
 
     def at_location(self, event: str, file: str, line: int, function_name: str, frame: FrameType) -> bool:
         """
